@@ -13,7 +13,7 @@ from fractions import Fraction
 import numpy as np
 
 from .. import core
-from ..core import Check, MachineryError, run_tlc
+from ..core import pyf, Check, MachineryError, run_tlc
 
 
 def fr(p):
@@ -61,7 +61,7 @@ def run(tier, seed):
             bulk[i] = cx(kb)
         keep = [a.copy() for a in (Y, radius, shear, bulk)]
         lon, col, tim = np.array([0.3]), np.array([theta]), np.array([0.0])
-        for tag, fn in (("jit", calculate_strain_stress), ("py_func", calculate_strain_stress.py_func if gi % 8 == 0 else None)):
+        for tag, fn in (("jit", calculate_strain_stress), ("py_func", pyf(calculate_strain_stress) if gi % 8 == 0 else None)):
             if fn is None:
                 continue
             for rep in range(2 if tag == "jit" else 1):      # the second call reuses the same input arrays
